@@ -8,7 +8,17 @@ cleanup() { git -C /repo worktree remove --force "$wt" >/dev/null 2>&1; }
 trap cleanup EXIT
 cd "$wt" || exit 9
 if ! git apply "$d/patch.diff" 2>/dev/null; then echo "$id/$k APPLY=FAIL"; exit 8; fi
-suite=$(PYTHONPATH="$wt/src" timeout 600 /venv/bin/python -m pytest tests -q -p no:cacheprovider -n 6 2>&1 | tail -1)
+out=$(PYTHONPATH="$wt/src" timeout 600 /venv/bin/python -m pytest tests -q -p no:cacheprovider -n 6 2>&1)
+suite=$(echo "$out" | tail -1)
+if echo "$suite" | grep -q "failed"; then
+  # one test (tests/actor/test_actor.py::test_does_not_restart_on_normal_exit) is timing-flaky under load:
+  # re-run whatever failed on its own, sequentially; only a failure that repeats counts
+  failed=$(echo "$out" | grep -E "^FAILED " | sed 's/^FAILED \([^ ]*\).*/\1/')
+  if [ -n "$failed" ] && PYTHONPATH="$wt/src" timeout 300 /venv/bin/python -m pytest $failed -q -p no:cacheprovider >/dev/null 2>&1; then
+    n=$(echo "$suite" | sed 's/.* \([0-9]*\) passed.*/\1/'); f=$(echo "$failed" | wc -w)
+    suite="$((n+f)) passed (after re-running $f load-flaky test(s) alone: $(echo $failed | tr '\n' ' '))"
+  fi
+fi
 sed "s#/tmp/seedwt/$id#$wt#g" "$d/demo.py" > /tmp/demo_${id}_${k}.py
 PYTHONPATH="$wt/src:$wt" timeout 300 /venv/bin/python /tmp/demo_${id}_${k}.py >/tmp/demo_${id}_${k}.with.log 2>&1; with=$?
 git checkout -- . ; git clean -fdq
